@@ -18,6 +18,9 @@ func TestScale(t *testing.T) {
 	var wg sync.WaitGroup
 	sem := make(chan struct{}, runtime.NumCPU())
 	for si, s := range specs {
+		if !run.Thorough() && si%3 != int(((run.Seed%3)+3)%3) {
+			continue // quick tier (under -race): a third of the geometries per seed; C05 runs all of them in every tier
+		}
 		for w := 0; w < rounds; w++ {
 			s, si, w := s, si, w
 			wg.Add(1)
@@ -46,7 +49,7 @@ func TestScale(t *testing.T) {
 		}
 	}
 	wg.Wait()
-	run.Floor("scale_scenarios", int64(len(specs)))
+	run.Floor("scale_scenarios", int64(len(specs)/3))
 }
 
 // TestTicker: the lease-mode distributed allocator with its own epoch ticker running (virtual time) and a store that
